@@ -508,19 +508,44 @@ def part_loader(ctx):
 
 
 # ------------------------------------------------------------------ one_hot_encode
-def run_onehot_impl(labels, as_array, scale):
+FORMS = ["list", "array", "column-array", "nested-list"]     # shapes (n,), (n,), (n,1), (n,1)
+
+
+def make_labels(labels, form, scale):
+    """the label container handed to one_hot_encode; `labels` are the n labels it denotes (x scale)"""
+    np = _impl().np
+    vals = [v / scale for v in labels] if scale != 1 else list(labels)
+    if form is True:            # backward compatibility with stored replays (as_array flag)
+        form = "array"
+    elif form is False:
+        form = "list"
+    if form == "list":
+        return vals
+    if form == "array":
+        return np.array(vals)
+    if form == "column-array":
+        return np.array(vals).reshape(len(vals), 1)
+    if form == "nested-list":
+        return [[v] for v in vals]
+    if form == "width2-array":  # malformed: rows of two labels
+        return np.array([[v, v + 1] for v in vals])
+    raise AssertionError(form)
+
+
+def run_onehot_impl(labels, form, scale):
     np = _impl().np
     D = _data()
-    vals = [v / scale for v in labels] if scale != 1 else list(labels)
-    arg = np.array(vals) if as_array else vals
+    arg = make_labels(labels, form, scale)
     try:
         out = D.one_hot_encode(arg)
+        out = np.asarray(out)
+        if out.size == 0:
+            return ("ok", [] if len(labels) == 0 else [[] for _ in labels])
+        if out.ndim != 2:
+            return ("ok", [["shape %s" % (out.shape,)]])
+        return ("ok", [[int(v) for v in row] for row in out])
     except Exception as ex:
         return ("raise", type(ex).__name__)
-    out = np.asarray(out)
-    if out.size == 0:
-        return ("ok", [] if len(labels) == 0 else [[] for _ in labels])
-    return ("ok", [[int(v) for v in row] for row in out])
 
 
 def judge_onehot(labels, res):
@@ -531,6 +556,8 @@ def judge_onehot(labels, res):
     if len(rows) != len(labels):
         return "%d rows for %d labels" % (len(rows), len(labels))
     for lab, row in zip(labels, rows):
+        if any(not isinstance(v, int) for v in row):
+            return "result is not an (n, k) table: %s" % (row,)
         if len(row) != len(u):
             return "row length %d, %d distinct labels" % (len(row), len(u))
         if sorted(row) != [0] * (len(u) - 1) + [1]:
@@ -541,43 +568,56 @@ def judge_onehot(labels, res):
 
 
 ONEHOT_EVAL = """
-Definition cases : list (list Z * option (list (list nat))) :=
+Definition cases : list (labels * option (list (list nat))) :=
  [%s].
-Eval vm_compute in (mismatches one_hot (option_eqb (list_eqb (list_eqb Nat.eqb))) cases).
+Eval vm_compute in (mismatches one_hot_c (option_eqb (list_eqb (list_eqb Nat.eqb))) cases).
 """
 
 
 def part_onehot(ctx):
     import itertools
     rng = ctx.rng
-    cases = []       # (labels as ints (scaled), as_array, scale)
+    cases = []       # (labels as ints (scaled), container form, scale)
     alpha = [-1, 0, 2]
     for ln in range(0, 5):
         for t in itertools.product(alpha, repeat=ln):
-            cases.append((list(t), ln % 2 == 0, 1))
+            for form in FORMS:
+                cases.append((list(t), form, 1))
     for _ in range(120 if ctx.quick else 600):
         ln = rng.randint(1, 12)
         pool = rng.sample(range(-9, 10), rng.randint(1, 6))
         labs = [rng.choice(pool) for _ in range(ln)]
         scale = rng.choice([1, 1, 4])          # scale 4: float labels v/4 (quarters), order-isomorphic to the integers v
-        cases.append((labs, rng.random() < 0.5, scale))
+        for form in FORMS:
+            cases.append((labs, form, scale))
+    # malformed: rows of width 2 -> list.index raises on the ambiguous comparison; model: None
+    for labs in ([1], [2, 0], [0, 0, 3]):
+        cases.append((labs, "width2-array", 1))
     rows, recs, oracle_fail = [], [], []
     distinct = set()
     for labs, arr, scale in cases:
         res = run_onehot_impl(labs, arr, scale)
-        v = judge_onehot(labs, res)
+        v = judge_onehot(labs, res) if arr != "width2-array" else None
         if v:
             oracle_fail.append(((labs, arr, scale), res, v))
-        exp = "None" if res[0] != "ok" else "Some %s" % clist([clist([cn(x) if x >= 0 else cn(4999) for x in row]) for row in res[1]])
-        rows.append("(%s, %s)" % (zlist(labs), exp))
-        recs.append({"labels": [l / scale for l in labs] if scale != 1 else labs, "as_array": arr, "implementation": res})
+        good = res[0] == "ok" and all(isinstance(x, int) and 0 <= x < 4999 for row in res[1] for x in row)
+        exp = "None" if res[0] != "ok" else ("Some %s" % clist([clist([cn(x) for x in row]) for row in res[1]]) if good else "Some [[4999]]")
+        if arr in ("column-array", "nested-list"):
+            cont = "Column %s" % clist([zlist([l]) for l in labs])
+        elif arr == "width2-array":
+            cont = "Column %s" % clist([zlist([l, l + 1]) for l in labs])
+        else:
+            cont = "Flat %s" % zlist(labs)
+        rows.append("(%s, %s)" % (cont, exp))
+        recs.append({"labels": [l / scale for l in labs] if scale != 1 else labs, "container": arr, "implementation": res})
         if len(set(labs)) >= 2 and labs != sorted(labs):
-            distinct.add(tuple(labs))
+            distinct.add((tuple(labs), arr))
     ctx.sample(recs[-1])
     mism = coq_compare(ctx, "onehot", ONEHOT_EVAL, rows, lambda i: recs[i])
     ctx.tie("one_hot_encode/label-lists", "correspondence", len(rows), len(distinct), mism, exhaustive=True,
-            note="every list of length <= 4 over {-1,0,2} + random lists (negative, unsorted, repeated, float quarters mapped to integers by x4, "
-                 "python list and ndarray arguments); non-trivial = >= 2 distinct labels, not already sorted")
+            note="every list of length <= 4 over {-1,0,2} + random lists (negative, unsorted, repeated, float quarters mapped to integers by x4), "
+                 "each in the four container forms list (n,), ndarray (n,), column ndarray (n,1), nested list [[l],..] (read row by row); "
+                 "3 malformed width-2 containers (raise / None); non-trivial = (labels, container) with >= 2 distinct labels, not already sorted")
     # string labels: oracle only (the model is over integers)
     s = ["b", "a", "c", "a"]
     D = _data()
@@ -613,7 +653,7 @@ def run(ctx):
                     {"outputs": outs, "transform_log": log, "verdict": v})
     if f3:
         (labs, arr, scale), res, v = min(f3, key=lambda t: len(t[0][0]))
-        ctx.witness("nn.utils.data.one_hot_encode", "unit-vectors", {"kind": "onehot", "labels": labs, "as_array": arr, "scale": scale},
+        ctx.witness("nn.utils.data.one_hot_encode", "unit-vectors", {"kind": "onehot", "labels": labs, "container": arr, "scale": scale},
                     "row i = unit vector at the index of label i among the sorted distinct labels",
                     {"implementation": res, "verdict": v})
     ctx.extra["oracle_cases_judged"] = {"split": "all split cases", "loader": "all loop-shaped histories", "one_hot": "all label lists"}
@@ -644,7 +684,7 @@ def replay(ctx, data):
             res = ("raise", type(ex).__name__)
         v = judge_onehot(inp["labels"], res)
     else:
-        res = run_onehot_impl(inp["labels"], inp["as_array"], inp["scale"])
+        res = run_onehot_impl(inp["labels"], inp.get("container", inp.get("as_array")), inp["scale"])
         v = judge_onehot(inp["labels"], res)
     print("input   ", json.dumps(inp))
     print("observed", res)
